@@ -966,6 +966,8 @@ func (ex *Exec) vrtIntrinsic(name string) intrinsic {
 		}
 	case "Symbolic":
 		return func(ex *Exec, fn *ssa.Function, a []Value) Value { return st.T }
+	case "NativeSleepMs":
+		return noop
 	case "BlackholeAddr":
 		// natively a listener that never answers; goroutines are not executed here, so any address will do
 		return func(ex *Exec, fn *ssa.Function, a []Value) Value { return ex.mkStr("127.0.0.1:9") }
